@@ -208,12 +208,27 @@ def run_case(case):
             out.append(R("inconclusive", pname, detail=f"engine ended {state}"))
             continue
         sets = {m.name: [e[3] for e in log if e[0] == "dev" and e[1] == m.name and e[2] == "set"] for m in motors}
+        # a stop/abort that lands while the reset itself is running interrupts the cleanup (that is what a second request is
+        # for): not an exit "with cleanup". Recognised by a set back to an initial position BEFORE the request landed.
+        inj_idx = next((j for j, e in enumerate(log) if e[0] == "inject"), None)
+        if inj_idx is not None:
+            # (a request takes effect a couple of loop handles after it landed: the engine's own state change marks it)
+            inj_idx = next((j for j, e in enumerate(log) if j > inj_idx and e[0] == "state" and e[1] in ("stopping", "aborting")),
+                           inj_idx)
+        in_cleanup = False
+        if inj_idx is not None and pname in RESETTING:
+            for m, x0 in zip(motors, init):
+                before = [float(e[3][0] if isinstance(e[3], (list, tuple)) else e[3]) for e in log[:inj_idx]
+                          if e[0] == "dev" and e[1] == m.name and e[2] == "set"]
+                if before and abs(before[-1] - x0) <= 1e-12 * max(1.0, abs(x0)):
+                    in_cleanup = True
+        counters["landed_in_cleanup_not_judged"] = int(in_cleanup)
         grid_like = pname in ("rel_grid_scan",)
         for m, x0, kd in zip(motors, init, kinds):
             got = [float(v) for v in sets[m.name]]
             exp = [float(v) for v in expected_targets[m.name]]
             body = got[:-1] if (pname in RESETTING and got) else got
-            if pname in RESETTING and (res[0] == "ret" or landed or faulted) and got:
+            if pname in RESETTING and (res[0] == "ret" or landed or faulted) and got and not in_cleanup:
                 counters["resets_checked"] += 1
                 if abs(got[-1] - x0) > 1e-12 * max(1.0, abs(x0)):
                     problems.append((f"not-returned-to-initial-position:exit={exit_kind if (landed or faulted) else 'success'}:{kd}",
